@@ -86,7 +86,7 @@ Factor(o) == Mul(Mul(Pow(fac.rho, Obs[o].dim[1]), Pow(fac.v, Obs[o].dim[2])), Po
 
 (* ---------------- scenario classes ---------------------------------------- *)
 Classes == [span : {"full", "half"}, side : {"L", "R", "F"}, ground : BOOLEAN, rot : BOOLEAN,
-            nsurf : 1..2, symflow : BOOLEAN, compressible : BOOLEAN]
+            nsurf : 1..3, symflow : BOOLEAN, compressible : BOOLEAN]
 ClassOK(c) == /\ (c.span = "half") <=> (c.side # "F")
               /\ c.ground => c.span = "half"
               /\ c.compressible => ~c.ground              \* not offered by the code: set-up fails loudly (OASSetup)
@@ -147,7 +147,7 @@ ImageGround == /\ CanAct("ImageGround") /\ cls.ground /\ ~cls.rot
                /\ cls' = [cls EXCEPT !.ground = FALSE]
                /\ Log(Act("ImageGround", 0)) /\ UNCHANGED <<fac, mir, tr, ytr, perm>>
 \* reverse the order in which the surfaces are listed
-Permute == /\ CanAct("Permute") /\ cls.nsurf = 2 /\ perm' = ~perm
+Permute == /\ CanAct("Permute") /\ cls.nsurf >= 2 /\ perm' = ~perm
            /\ Log(Act("Permute", 0)) /\ UNCHANGED <<cls, fac, mir, tr, ytr>>
 \* incompressible model -> compressible model at Mach 0 (zero sideslip)
 Mach0 == /\ CanAct("Mach0") /\ ~cls.compressible /\ cls.symflow /\ ~cls.ground
